@@ -145,6 +145,43 @@ func addMisc(e *Engine, m map[string]intrinsic) {
 		return tupleOf(p.normalizeJSON(args[0]), iface{})
 	}
 	m["os.Getenv"] = func(p *Path, fr *frame, args []value) value { return "" }
+	// sync.Map: an ordinary map from interface keys to interface values per receiver
+	// (single goroutine)
+	syncMap := func(p *Path, recv value) *Map {
+		ptr := recv.(*value)
+		if p.syncMaps == nil {
+			p.syncMaps = map[*value]*Map{}
+		}
+		sm := p.syncMaps[ptr]
+		if sm == nil {
+			sm = newMap(types.NewInterfaceType(nil, nil))
+			p.syncMaps[ptr] = sm
+		}
+		return sm
+	}
+	m["(*sync.Map).Load"] = func(p *Path, fr *frame, args []value) value {
+		v, ok := syncMap(p, args[0]).lookup(p, args[1])
+		if !ok {
+			return tupleOf(iface{}, termFalse)
+		}
+		return tupleOf(v, termTrue)
+	}
+	m["(*sync.Map).Store"] = func(p *Path, fr *frame, args []value) value {
+		syncMap(p, args[0]).insert(p, args[1], args[2])
+		return nil
+	}
+	m["(*sync.Map).LoadOrStore"] = func(p *Path, fr *frame, args []value) value {
+		sm := syncMap(p, args[0])
+		if v, ok := sm.lookup(p, args[1]); ok {
+			return tupleOf(v, termTrue)
+		}
+		sm.insert(p, args[1], args[2])
+		return tupleOf(args[2], termFalse)
+	}
+	m["(*sync.Map).Delete"] = func(p *Path, fr *frame, args []value) value {
+		syncMap(p, args[0]).delete(p, args[1])
+		return nil
+	}
 	// prototext.Format / Message.String(): a structural rendering of the message's
 	// exported fields (injective on the content, not byte-identical to prototext;
 	// callers use it for map keys and messages only)
